@@ -57,6 +57,13 @@ def reservation_scope(namespace, binding):
 
     namespaces = {namespace}
 
+    # Comprehensions may be inlined into the enclosing function (PEP 709), where a target sharing its name with a variable
+    # that a nested function closes over makes that variable unreachable. So the name must be unused there too.
+    enclosing = namespace
+    while isinstance(enclosing, (ast.ListComp, ast.SetComp, ast.DictComp)):
+        enclosing = enclosing.namespace
+        namespaces.add(enclosing)
+
     for node in binding.references:
         # An assignment expression target in a comprehension is bound in an enclosing namespace,
         # but its name must also be unused in the comprehension namespaces the expression is in
